@@ -196,3 +196,24 @@ def iqc_unregister(n: Obj("ProtocolTreeNode")):
     ensures(same_iq_attrs(m, n))
     ensures(n_children(m) == 1 and child(m, 0).tag == "remove" and child(m, 0).data is None and n_children(child(m, 0)) == 0)
     ensures(same_attr(child(m, 0), pure_child(n, "remove"), "xmlns"))
+
+
+@scenario
+def iqc_privacy_set(n: Obj("ProtocolTreeNode"), u0: Obj("ProtocolTreeNode"), u1: Obj("ProtocolTreeNode")):
+    """<iq xmlns="privacy" type="set" id=><privacy><category name= value=/><category name= value=/></privacy></iq>"""
+    requires(iq_shape(n, "set") and attr(n, "xmlns") == "privacy" and pure_child(n, "privacy") is not None)
+    requires(u0.tag == "category" and u1.tag == "category")
+    requires(attr(u0, "name") == "status" or attr(u0, "name") == "profile" or attr(u0, "name") == "last")
+    requires(attr(u1, "name") == "status" or attr(u1, "name") == "profile" or attr(u1, "name") == "last")
+    requires(attr(u0, "value") == "all" or attr(u0, "value") == "contacts" or attr(u0, "value") == "none")
+    requires(attr(u1, "value") == attr(u0, "value"))
+    n.getChild("privacy").children = [u0, u1]
+    e = SetPrivacyIqProtocolEntity.fromProtocolTreeNode(n)
+    m = e.toProtocolTreeNode()
+    ensures(same_iq_attrs(m, n))
+    ensures(n_children(m) == 1 and child(m, 0).tag == "privacy" and child(m, 0).data is None and n_children(child(m, 0)) == 2)
+    ensures(child(child(m, 0), 0).tag == "category" and child(child(m, 0), 1).tag == "category")
+    ensures(same_attr(child(child(m, 0), 0), u0, "name") and same_attr(child(child(m, 0), 1), u1, "name"))
+    # FINDING (reported, not claimed here): the value is not read back - fromProtocolTreeNode ends with entity.setValue("all"), so
+    # value="none" / "contacts" comes back as value="all".  Only value="all" is a round trip:
+    ensures(implies(attr(u0, "value") == "all", same_attr(child(child(m, 0), 0), u0, "value") and same_attr(child(child(m, 0), 1), u1, "value")))
